@@ -25,6 +25,10 @@ import (
 
 var clientSeq int
 
+// earlyGrace: how long an `early` op keeps the call inside its ack window after the
+// acknowledgement (and a PINGREQ behind it) went out, waiting for the PINGRESP.
+const earlyGrace = 15 * time.Millisecond
+
 type clientCore struct {
 	ln    net.Listener
 	cln   *service.Client
@@ -627,6 +631,19 @@ func (c *clientCore) handle(ws []string) string {
 		if c.cln == nil {
 			return "apierr"
 		}
+		if len(api) >= 3 && api[0] == "pub" && api[2] == "0" {
+			// a QoS 0 publish registers nothing (and takes no lock): there is no window; the call,
+			// then the packet
+			err := c.doAPI(api)
+			c.peer.SetWriteDeadline(time.Now().Add(brokerWait))
+			c.peer.Write(peerPacketBytes(c.resolveRefs(ack)))
+			ok := c.sync()
+			var extra []string
+			if err != nil {
+				extra = []string{"apierr"}
+			}
+			return c.collect(extra, ok)
+		}
 		c.mu.Lock()
 		c.armed = true
 		c.mu.Unlock()
@@ -637,6 +654,7 @@ func (c *clientCore) handle(ws []string) string {
 		case <-time.After(brokerWait):
 			return "NO-WINDOW"
 		}
+		// the call now sits between the write of its request and the registration
 		ok0 := true
 		if hasRef(ack) {
 			// the acknowledgement may name the request being made: the peer has to have read it
@@ -645,10 +663,28 @@ func (c *clientCore) handle(ws []string) string {
 			c.noteWritten(api, c.rd.items)
 			c.rd.mu.Unlock()
 		}
+		c.peer.SetWriteDeadline(time.Now().Add(brokerWait))
 		c.peer.Write(peerPacketBytes(c.resolveRefs(ack)))
-		ok1 := c.sync()
+		// The acknowledgement reaches the client inside the window, a PINGREQ right behind it.  A
+		// library that processes the acknowledgement inside the window answers the PINGREQ at
+		// once (and has then dropped the acknowledgement: E5).  The repaired library holds the
+		// acknowledgement back until the request is registered (service.ackmu), so the PINGRESP
+		// cannot come before the call is let go: wait a bounded time for it, then end the window.
+		// Either way the acknowledgement has been processed when the PINGRESP of the final
+		// barrier arrives, and the output of the op does not depend on the waiting time.
+		c.peer.Write([]byte{0xc0, 0x00})
+		c.pendingBarrierPongs++
+		c.pingsSent++
+		want := c.pingsSent
+		c.rd.waitUntil(func() bool { return c.rd.pongs >= want || c.rd.eof }, earlyGrace)
 		c.relse <- struct{}{}
-		err := <-errc
+		var err error
+		ok1 := true
+		select {
+		case err = <-errc:
+		case <-time.After(brokerWait):
+			ok1 = false
+		}
 		ok2 := c.sync()
 		var extra []string
 		if err != nil {
@@ -670,7 +706,18 @@ func genClient(seed int64, n int, tier string, w *bufio.Writer) {
 	filts := []string{"a", "a/b", "a/+", "a/#", "#", "b", "+/b", "x/+"}
 	for done := 0; done < n; {
 		emit("reset")
-		allowEarly := r.Intn(6) == 0
+		// An acknowledgement may reach the client while the sending call is between the write of its
+		// request and the registration (`early <call> | <packet>`): in every episode now and then, in
+		// one episode in eight for a third of the calls.  Mostly it is the call's own acknowledgement;
+		// sometimes that of an older request in flight (the new request then stays in flight), and
+		// for pings the PINGRESP answers the oldest ping outstanding, whichever call it interrupts.
+		earlyHeavy := r.Intn(8) == 0
+		early := func(n int) bool {
+			if earlyHeavy {
+				return r.Intn(3) == 0
+			}
+			return r.Intn(n) == 0
+		}
 		// pings carry no identifier: any number may be outstanding.  Some episodes are ping-heavy
 		// (several outstanding pings, PINGRESPs interleaved with the other acknowledgements, more
 		// PINGRESPs than pings).
@@ -786,9 +833,27 @@ func genClient(seed int64, n int, tier string, w *bufio.Writer) {
 			}
 			switch {
 			case k < 22:
+				older1 := ""
+				if len(flight1) > 0 {
+					older1 = flight1[0]
+				}
 				a := pub()
-				if allowEarly && r.Intn(3) == 0 && ackFor(a) != "" {
-					emit("early %s | %s", a, ackFor(a))
+				if ackFor(a) != "" && early(25) {
+					if older1 != "" && r.Intn(4) == 0 {
+						// the PUBACK of the oldest QoS 1 publish in flight arrives inside this call's window
+						emit("early %s | puback %s", a, older1)
+						flight1 = flight1[1:]
+					} else {
+						// acknowledged at once: no longer in flight for the generator (a PUBREC after
+						// the PUBCOMP would be a peer protocol violation, see "PUBREC precedes PUBCOMP")
+						emit("early %s | %s", a, ackFor(a))
+						switch strings.Fields(a)[2] {
+						case "1":
+							flight1 = flight1[:len(flight1)-1]
+						case "2":
+							flight2 = flight2[:len(flight2)-1]
+						}
+					}
 				} else {
 					emit("api %s", a)
 				}
@@ -815,8 +880,16 @@ func genClient(seed int64, n int, tier string, w *bufio.Writer) {
 					parts = append(parts, fmt.Sprintf("%s:%d", hexStr(f), r.Intn(3)))
 				}
 				id, ref := ownID()
-				subsF = append(subsF, ref)
-				emit("api sub %d %s %d %d", id, strings.Join(parts, ","), tag, cb)
+				if early(25) {
+					var codes []string
+					for range parts {
+						codes = append(codes, pick(r, []string{"0", "1", "2", "2", "128"}))
+					}
+					emit("early sub %d %s %d %d | suback %s %s", id, strings.Join(parts, ","), tag, cb, ref, strings.Join(codes, ","))
+				} else {
+					subsF = append(subsF, ref)
+					emit("api sub %d %s %d %d", id, strings.Join(parts, ","), tag, cb)
+				}
 			case k < 44:
 				if len(subsF) > 0 {
 					j := 0
@@ -882,12 +955,16 @@ func genClient(seed int64, n int, tier string, w *bufio.Writer) {
 				}
 			case k < 92:
 				id, ref := ownID()
-				unsubsF = append(unsubsF, ref)
 				var parts []string
 				for j := 0; j < 1+r.Intn(2); j++ {
 					parts = append(parts, hexStr(pick(r, filts)))
 				}
-				emit("api unsub %d %s %d", id, strings.Join(parts, ","), tag)
+				if early(25) {
+					emit("early unsub %d %s %d | unsuback %s", id, strings.Join(parts, ","), tag, ref)
+				} else {
+					unsubsF = append(unsubsF, ref)
+					emit("api unsub %d %s %d", id, strings.Join(parts, ","), tag)
+				}
 			case k < 95:
 				if len(unsubsF) > 0 {
 					emit("peer unsuback %s", unsubsF[0])
@@ -902,7 +979,9 @@ func genClient(seed int64, n int, tier string, w *bufio.Writer) {
 					if r.Intn(10) == 0 {
 						t = 0 // no completion callback: still takes its PINGRESP
 					}
-					if allowEarly && r.Intn(4) == 0 {
+					if early(8) {
+						// with pings outstanding the PINGRESP answers the oldest of them and this ping
+						// queues behind the rest: the number outstanding stays the same
 						emit("early ping %d | pingresp", t)
 					} else {
 						emit("api ping %d", t)
